@@ -1,9 +1,10 @@
+// DERIVED from kani/seq.rs by tools/mk_thorough.py (thorough tier: four operations per history).
 // @module src/iter/con_iter.rs
 // Sequential corollary (C04 last sentence, C05, C06, C11) on the real code with the REAL atomics: any single-threaded sequence of
-// three symbolic operations behaves like one sequential cursor over the source.  Bounded: source length <= 3, three operations;
+// four symbolic operations behaves like one sequential cursor over the source.  Bounded: source length <= 3, three operations;
 // chunk sizes over the full usize domain.  `*_nowrap` variants run in the no-wrap regime the properties state; `*_fulldomain`
 // variants drop it (C16: chunk sizes up to usize::MAX "each followed by further pulls").
-mod vk_seq {
+mod vk_seq_s4 {
     use crate::{ConIterOfSlice, ConIterOfRange, ConcurrentIter, HasMore};
 
     const N: usize = 3;
@@ -42,7 +43,7 @@ mod vk_seq {
         let mut last_delivered: Option<usize> = None;
         let mut ended = false;
         let mut step = 0;
-        while step < 3 {
+        while step < 4 {
             let op: u8 = kani::any();
             kani::assume(op < 5);
             if op == 0 {
@@ -93,15 +94,11 @@ mod vk_seq {
         }
     }
 
-    // @harness name=seq_slice_nowrap group=default,nodebug props_nodebug=C17 props=C04,C01,C02,C03,C05,C06,C10,C11,C17 kind=bounded bound="slice length <= 3; three symbolic operations (next, next_chunk(n), buffered next(n), try_get_len/has_more, skip_to_end) then into_seq_iter; n over the full usize domain with cumulative requests <= usize::MAX"
+    // @harness name=seq_slice_nowrap_s4 tier=thorough props=C04,C01,C02,C03,C05,C06,C10,C11,C17 kind=bounded bound="slice length <= 3; four symbolic operations (next, next_chunk(n), buffered next(n), try_get_len/has_more, skip_to_end) then into_seq_iter; n over the full usize domain with cumulative requests <= usize::MAX"
     #[kani::proof]
-    #[kani::unwind(6)]
-    fn seq_slice_nowrap() { run_slice(true); }
+    #[kani::unwind(7)]
+    fn seq_slice_nowrap_s4() { run_slice(true); }
 
-    // @harness name=seq_slice_fulldomain props=C16 kind=bounded bound="slice length <= 3; three symbolic operations; n over the full usize domain, no no-wrap assumption"
-    #[kani::proof]
-    #[kani::unwind(6)]
-    fn seq_slice_fulldomain() { run_slice(false); }
 
     fn run_range(nowrap: bool) {
         let s0: usize = kani::any();
@@ -111,7 +108,7 @@ mod vk_seq {
         let mut c = Cur { v: 0, over: false };
         let mut ended = false;
         let mut step = 0;
-        while step < 3 {
+        while step < 4 {
             let op: u8 = kani::any();
             kani::assume(op < 4);
             if op == 3 {
@@ -146,103 +143,9 @@ mod vk_seq {
         else { chk!(c, r.start >= r.end, "[C10 seq-remainder] into_seq_iter yields nothing but the undelivered remainder"); }
     }
 
-    // @harness name=seq_range_nowrap group=default,nodebug props_nodebug=C17 props=C04,C01,C02,C03,C05,C06,C10,C11,C17 kind=bounded bound="range length <= 3, any start; three symbolic operations (next, next_chunk(n), try_get_len, skip_to_end) then into_seq_iter; cumulative requests <= usize::MAX"
-    #[kani::proof]
-    #[kani::unwind(5)]
-    fn seq_range_nowrap() { run_range(true); }
-
-    // @harness name=seq_range_fulldomain props=C16 kind=bounded bound="range length <= 3, any start; three symbolic operations; no no-wrap assumption"
-    #[kani::proof]
-    #[kani::unwind(5)]
-    fn seq_range_fulldomain() { run_range(false); }
-
-    // constructors: every way of creating a concurrent iterator starts at position 0 over exactly the given source
-    // @harness name=constructors_into props=C19,C01,C02,C04 kind=bounded bound="sources of length 3 (symbolic contents); range of any start with length <= 3"
+    // @harness name=seq_range_nowrap_s4 tier=thorough props=C04,C01,C02,C03,C05,C06,C10,C11,C17 kind=bounded bound="range length <= 3, any start; four symbolic operations (next, next_chunk(n), try_get_len, skip_to_end) then into_seq_iter; cumulative requests <= usize::MAX"
     #[kani::proof]
     #[kani::unwind(6)]
-    fn constructors_into() {
-        use crate::{ConcurrentIterable, IntoConcurrentIter, IterIntoConcurrentIter};
-        let a: [u8; 3] = kani::any();
-        let which: u8 = kani::any();
-        kani::assume(which < 5);
-        kani::cover!(which == 4, "wrapped iterator");
-        if which == 0 {
-            let it = IntoConcurrentIter::into_con_iter(vec![a[0], a[1], a[2]]);
-            assert!(it.try_get_len() == Some(3), "[C19 C01 ctor-len] a new iterator has the whole source ahead of it");
-            let x = it.next_id_and_value().map(|x| (x.idx, x.value));
-            assert!(x == Some((0, a[0])), "[C19 C01 C02 ctor-first] the first pull delivers position 0");
-            let r: Vec<u8> = it.into_seq_iter().collect();
-            assert!(r.len() == 2 && r[0] == a[1] && r[1] == a[2], "[C04 C01 ctor-order] ... followed by the rest of the source in order");
-        } else if which == 1 {
-            let it = IntoConcurrentIter::into_con_iter(a);
-            assert!(it.try_get_len() == Some(3), "[C19 C01 ctor-len] a new iterator has the whole source ahead of it");
-            let x = it.next_id_and_value().map(|x| (x.idx, x.value));
-            assert!(x == Some((0, a[0])), "[C19 C01 C02 ctor-first] the first pull delivers position 0");
-            let r: Vec<u8> = it.into_seq_iter().collect();
-            assert!(r.len() == 2 && r[0] == a[1] && r[1] == a[2], "[C04 C01 ctor-order] ... followed by the rest of the source in order");
-        } else if which == 2 {
-            let s0: usize = kani::any();
-            let len: usize = kani::any();
-            kani::assume(len <= 3 && s0 <= usize::MAX - len);
-            let r = s0..s0 + len;
-            let it = r.con_iter();
-            let it2 = IntoConcurrentIter::into_con_iter(s0..s0 + len);
-            assert!(it.try_get_len() == Some(len) && it2.try_get_len() == Some(len), "[C19 C01 ctor-len] a new iterator has the whole source ahead of it");
-            let x = it.next_id_and_value().map(|x| (x.idx, x.value));
-            assert!(x == if len > 0 { Some((0, s0)) } else { None }, "[C19 C01 C02 ctor-first] the first pull delivers position 0");
-            assert!(r.start == s0 && r.end == s0 + len && it2.try_get_len() == Some(len), "[C19 ctor-unmodified] con_iter leaves the range and other iterators over it untouched");
-        } else if which == 3 {
-            let v = vec![a[0], a[1], a[2]];
-            let it = v.con_iter();
-            let x = it.next_id_and_value().map(|x| (x.idx, *x.value));
-            assert!(x == Some((0, a[0])) && it.try_get_len() == Some(2), "[C19 C01 C02 ctor-first] the first pull delivers position 0");
-        } else {
-            let it = IterIntoConcurrentIter::into_con_iter(a.iter().copied());
-            assert!(it.try_get_len() == Some(3), "[C19 C01 C11 ctor-len] a new iterator over an exact-size source has the whole source ahead of it");
-            let x = it.next_id_and_value().map(|x| (x.idx, x.value));
-            assert!(x == Some((0, a[0])), "[C19 C01 C02 ctor-first] the first pull delivers position 0");
-            let mut rest = it.into_seq_iter();
-            assert!(rest.next() == Some(a[1]) && rest.next() == Some(a[2]) && rest.next().is_none(), "[C10 C04 ctor-order] into_seq_iter of a wrapped iterator yields exactly the undelivered remainder, in order");
-        }
-    }
+    fn seq_range_nowrap_s4() { run_range(true); }
 
-    // the `From` impls build the same iterators as the constructors above
-    // @harness name=constructors_from props=C19,C01,C02,C04,C11 kind=bounded bound="sources of length 3 (symbolic contents); range of any start with length <= 3"
-    #[kani::proof]
-    #[kani::unwind(6)]
-    fn constructors_from() {
-        use crate::{ConIterOfVec, ConIterOfArray};
-        let a: [u8; 3] = kani::any();
-        let which: u8 = kani::any();
-        kani::assume(which < 4);
-        kani::cover!(which == 3, "range");
-        if which == 0 {
-            let it = ConIterOfVec::from(vec![a[0], a[1], a[2]]);
-            assert!(it.try_get_len() == Some(3), "[C19 C01 C11 from-len] an iterator built with From has the whole source ahead of it");
-            let x = it.next_id_and_value().map(|x| (x.idx, x.value));
-            assert!(x == Some((0, a[0])), "[C19 C01 C02 from-first] its first pull delivers position 0");
-            let r: Vec<u8> = it.into_seq_iter().collect();
-            assert!(r.len() == 2 && r[0] == a[1] && r[1] == a[2], "[C04 C01 from-order] ... followed by the rest of the source in order");
-        } else if which == 1 {
-            let it = ConIterOfArray::from(a);
-            assert!(it.try_get_len() == Some(3), "[C19 C01 C11 from-len] an iterator built with From has the whole source ahead of it");
-            let x = it.next_id_and_value().map(|x| (x.idx, x.value));
-            assert!(x == Some((0, a[0])), "[C19 C01 C02 from-first] its first pull delivers position 0");
-            let r: Vec<u8> = it.into_seq_iter().collect();
-            assert!(r.len() == 2 && r[0] == a[1] && r[1] == a[2], "[C04 C01 from-order] ... followed by the rest of the source in order");
-        } else if which == 2 {
-            let it = ConIterOfSlice::from(&a[..]);
-            assert!(it.try_get_len() == Some(3), "[C19 C01 C11 from-len] an iterator built with From has the whole source ahead of it");
-            let x = it.next_id_and_value().map(|x| (x.idx, x.value as *const u8));
-            assert!(x == Some((0, &a[0] as *const u8)), "[C19 C01 C02 from-first] its first pull delivers position 0, in place");
-        } else {
-            let s0: usize = kani::any();
-            let len: usize = kani::any();
-            kani::assume(len <= 3 && s0 <= usize::MAX - len);
-            let it = ConIterOfRange::from(s0..s0 + len);
-            assert!(it.try_get_len() == Some(len), "[C19 C01 C11 from-len] an iterator built with From has the whole source ahead of it");
-            let x = it.next_id_and_value().map(|x| (x.idx, x.value));
-            assert!(x == if len > 0 { Some((0, s0)) } else { None }, "[C19 C01 C02 from-first] its first pull delivers position 0");
-        }
-    }
 }
